@@ -465,6 +465,8 @@ func main() {
 				if x.Op == token.MUL {
 					if bl, ok := x.Y.(*ast.BasicLit); ok {
 						k, _ = strconv.Atoi(bl.Value)
+					} else if tv, ok := fi.info.Types[x.Y]; ok && tv.Value != nil { // a named constant (typeWeight)
+						k, _ = strconv.Atoi(tv.Value.ExactString())
 					}
 				}
 			case *ast.IncDecStmt:
@@ -511,24 +513,59 @@ func main() {
 		fi := byKey[key]
 		shape := "unknown"
 		if fi != nil {
-			ast.Inspect(fi.decl.Body, func(n ast.Node) bool {
-				ce, ok := n.(*ast.CallExpr)
-				if !ok {
-					return true
+			// the http.Error call may sit in the option itself or in a helper of the package that the option calls with
+			// its own arguments (statusRecovery(status, report)): parameters are renamed back to the caller's expressions
+			var find func(fi *funcInfo, bind map[string]string, depth int)
+			sub := func(e ast.Expr, bind map[string]string) string {
+				if id, ok := e.(*ast.Ident); ok && bind[id.Name] != "" {
+					return bind[id.Name]
 				}
-				if se, ok := ce.Fun.(*ast.SelectorExpr); ok && exprString(se.X) == "http" && se.Sel.Name == "Error" && len(ce.Args) == 3 {
-					mid := exprString(ce.Args[1])
-					if inner, ok := ce.Args[1].(*ast.CallExpr); ok {
-						var as []string
-						for _, a := range inner.Args {
-							as = append(as, exprString(a))
-						}
-						mid = exprString(inner.Fun) + "(" + strings.Join(as, ",") + ")"
+				return exprString(e)
+			}
+			find = func(fi *funcInfo, bind map[string]string, depth int) {
+				ast.Inspect(fi.decl.Body, func(n ast.Node) bool {
+					ce, ok := n.(*ast.CallExpr)
+					if !ok {
+						return true
 					}
-					shape = exprString(ce.Args[0]) + "|" + mid + "|" + exprString(ce.Args[2])
-				}
-				return true
-			})
+					if se, ok := ce.Fun.(*ast.SelectorExpr); ok && exprString(se.X) == "http" && se.Sel.Name == "Error" && len(ce.Args) == 3 {
+						mid := sub(ce.Args[1], bind)
+						if inner, ok := ce.Args[1].(*ast.CallExpr); ok {
+							var as []string
+							for _, a := range inner.Args {
+								as = append(as, sub(a, bind))
+							}
+							mid = exprString(inner.Fun) + "(" + strings.Join(as, ",") + ")"
+						}
+						shape = sub(ce.Args[0], bind) + "|" + mid + "|" + sub(ce.Args[2], bind)
+						return true
+					}
+					if depth >= 2 {
+						return true
+					}
+					var callee *funcInfo
+					if id, ok := ce.Fun.(*ast.Ident); ok {
+						if fn, ok := fi.info.Uses[id].(*types.Func); ok {
+							callee = lookupFunc(fn)
+						}
+					}
+					if callee != nil && callee.pkg == fi.pkg && callee != fi && callee.decl.Body != nil && !strings.HasPrefix(callee.name, "With") {
+						b := map[string]string{}
+						i := 0
+						for _, fld := range callee.decl.Type.Params.List {
+							for _, pn := range fld.Names {
+								if i < len(ce.Args) {
+									b[pn.Name] = sub(ce.Args[i], bind)
+								}
+								i++
+							}
+						}
+						find(callee, b, depth+1)
+					}
+					return true
+				})
+			}
+			find(fi, map[string]string{}, 0)
 		}
 		recov = append(recov, fmt.Sprintf("(%s, %s)", strconv.Quote(strings.TrimLeft(key, ".")), strconv.Quote(shape)))
 	}
@@ -568,27 +605,74 @@ func main() {
 	js["shorthandMethods"] = shorts
 
 	// ---- the order of the calls in Tree.Add (every validation before the first mutation) and in Router.serveContext
-	callOrder := func(key string) string {
+	// The calls of interest are listed in source order, looking through helpers of the same package (a validation or a
+	// recover block moved into a helper keeps its place) and through function-typed parameters (a helper that receives
+	// r.recoverFunc as `f` and calls f(...) is a call of recoverFunc). Other calls (locking helpers, header writes,
+	// formatting) do not take part: a refactoring may add or move them freely.
+	callOrder := func(key string, interesting map[string]bool) string {
 		fi := byKey[key]
 		if fi == nil {
 			return "none"
 		}
 		var names []string
-		ast.Inspect(fi.decl.Body, func(n ast.Node) bool {
-			if ce, ok := n.(*ast.CallExpr); ok {
-				nm := calleeName(ce)
-				switch nm {
-				case "len", "make", "Lock", "Unlock", "RLock", "RUnlock", "Errorf":
-				default:
-					names = append(names, strconv.Quote(nm))
+		var walk func(fi *funcInfo, bind map[string]string, depth int)
+		walk = func(fi *funcInfo, bind map[string]string, depth int) {
+			ast.Inspect(fi.decl.Body, func(n ast.Node) bool {
+				ce, ok := n.(*ast.CallExpr)
+				if !ok {
+					return true
 				}
-			}
-			return true
-		})
+				nm := calleeName(ce)
+				if id, isId := ce.Fun.(*ast.Ident); isId && bind[id.Name] != "" {
+					nm = bind[id.Name]
+				}
+				if interesting[nm] {
+					names = append(names, strconv.Quote(nm))
+					return true
+				}
+				if depth >= 3 {
+					return true
+				}
+				var callee *funcInfo
+				switch f := ce.Fun.(type) {
+				case *ast.Ident:
+					if fn, ok := fi.info.Uses[f].(*types.Func); ok {
+						callee = lookupFunc(fn)
+					}
+				case *ast.SelectorExpr:
+					if fn, ok := fi.info.Uses[f.Sel].(*types.Func); ok {
+						callee = lookupFunc(fn)
+					}
+				}
+				if callee != nil && callee.pkg == fi.pkg && callee != fi && callee.decl.Body != nil {
+					b := map[string]string{}
+					i := 0
+					for _, fld := range callee.decl.Type.Params.List {
+						for _, pn := range fld.Names {
+							if i < len(ce.Args) {
+								switch a := ce.Args[i].(type) {
+								case *ast.Ident:
+									b[pn.Name] = a.Name
+									if bind[a.Name] != "" {
+										b[pn.Name] = bind[a.Name]
+									}
+								case *ast.SelectorExpr:
+									b[pn.Name] = a.Sel.Name
+								}
+							}
+							i++
+						}
+					}
+					walk(callee, b, depth+1)
+				}
+				return true
+			})
+		}
+		walk(fi, map[string]string{}, 0)
 		return "some [" + strings.Join(names, ", ") + "]"
 	}
-	fmt.Fprintf(&out, "def addCallOrder : Option (List String) := %s\n", callOrder("internal/tree.Tree.Add"))
-	fmt.Fprintf(&out, "def serveCallOrder : Option (List String) := %s\n\n", callOrder(".Router.serveContext"))
+	fmt.Fprintf(&out, "def addCallOrder : Option (List String) := %s\n", callOrder("internal/tree.Tree.Add", map[string]bool{"checkAmbiguous": true, "Split": true, "checkMethods": true, "getNode": true, "addMethods": true, "addSegment": true, "splitNode": true}))
+	fmt.Fprintf(&out, "def serveCallOrder : Option (List String) := %s\n\n", callOrder(".Router.serveContext", map[string]bool{"recover": true, "recoverFunc": true, "panic": true, "Destroy": true, "Handler": true, "SetNode": true, "handle": true, "call": true}))
 
 	// ---- which functions write shared state, directly or through a callee (fixpoint over the static call graph)
 	writes := map[string]bool{}
@@ -995,10 +1079,18 @@ func lockShape(fi *funcInfo, writes map[string]bool, depth int) []string {
 	access := func(e ast.Node) {
 		ast.Inspect(e, func(n ast.Node) bool {
 			switch x := n.(type) {
+			case *ast.DeferStmt:
+				if isReleaseCall(x.Call) {
+					return false // the lock is held until the function returns
+				}
 			case *ast.CallExpr:
 				nm := calleeName(x)
 				if se, ok := x.Fun.(*ast.SelectorExpr); ok {
-					if nm == "Lock" || nm == "RLock" || nm == "Unlock" || nm == "RUnlock" {
+					if nm == "Unlock" || nm == "RUnlock" {
+						evs = append(evs, ".rel") // an explicit release in the middle of the function
+						return false
+					}
+					if nm == "Lock" || nm == "RLock" {
 						return false
 					}
 					root := rootIdent(se.X)
@@ -1008,10 +1100,12 @@ func lockShape(fi *funcInfo, writes map[string]bool, depth int) []string {
 							// inline the callee's own shape (it may lock itself; its deferred unlock runs when it returns)
 							inner := lockShape(callee, writes, depth+1)
 							evs = append(evs, inner...)
-							for _, e := range inner {
-								if e == ".acqR" || e == ".acqW" {
-									evs = append(evs, ".rel")
-									break
+							if hasDeferredRelease(callee) { // a helper that only acquires (tree.lock()) keeps the lock for its caller
+								for _, e := range inner {
+									if e == ".acqR" || e == ".acqW" {
+										evs = append(evs, ".rel")
+										break
+									}
 								}
 							}
 						} else if callee.recv == "node" {
@@ -1088,6 +1182,45 @@ func lockShape(fi *funcInfo, writes map[string]bool, depth int) []string {
 		}
 	}
 	return out
+}
+
+// releaseOnly: a helper whose body releases the tree lock and never acquires it (tree.unlock(), tree.runlock()).
+func releaseOnly(fi *funcInfo) bool {
+	rel, acq := false, false
+	ast.Inspect(fi.decl.Body, func(n ast.Node) bool {
+		if ce, ok := n.(*ast.CallExpr); ok {
+			switch calleeName(ce) {
+			case "Unlock", "RUnlock":
+				rel = true
+			case "Lock", "RLock":
+				acq = true
+			}
+		}
+		return true
+	})
+	return rel && !acq
+}
+
+func isReleaseCall(ce *ast.CallExpr) bool {
+	nm := calleeName(ce)
+	if nm == "Unlock" || nm == "RUnlock" {
+		return true
+	}
+	if callee := treeFunc(nm); callee != nil && callee.decl.Body != nil && releaseOnly(callee) {
+		return true
+	}
+	return false
+}
+
+func hasDeferredRelease(fi *funcInfo) bool {
+	found := false
+	ast.Inspect(fi.decl.Body, func(n ast.Node) bool {
+		if d, ok := n.(*ast.DeferStmt); ok && isReleaseCall(d.Call) {
+			found = true
+		}
+		return true
+	})
+	return found
 }
 
 func treeFunc(name string) *funcInfo {
